@@ -192,7 +192,11 @@ def _new_private_scalar_const(line, want_lines, got_lines):
     (its `#[cfg]` line is a difference of its own), and a constant that any other item mentions."""
     import re
     m = re.fullmatch(r"\+(?:pub \( [^()]* \) )?const ([A-Za-z_][A-Za-z0-9_]*) : (\w+) = (.+) ;", line)
-    if not m or m.group(2) not in SCALAR_TYPES or "{" in m.group(3):
+    if not m:
+        m = _new_private_table_const(line)
+        if not m:
+            return False
+    elif m.group(2) not in SCALAR_TYPES or "{" in m.group(3):
         return False
     name = m.group(1)
     word = re.compile(r"(?<![A-Za-z0-9_])%s(?![A-Za-z0-9_])" % re.escape(name))
@@ -200,6 +204,22 @@ def _new_private_scalar_const(line, want_lines, got_lines):
     if sum(1 for l in got_lines if l == own) != 1:
         return False
     return not any(word.search(l) for l in want_lines) and not any(word.search(l) for l in got_lines if l != own)
+
+
+def _new_private_table_const(line):
+    """The same rule (module level, not `pub`, the name in no other skeleton line -- checked by the caller) for a private
+    TABLE `const NAME : [ T ; <literal length> ] = [ entries ] ;` whose entries are literals, paths and tuples of those:
+    no block, no closure, no call with a block (no `{`, no `|`), no `static`.  Such a table is reachable only from
+    function bodies and is their DATA: a function translator that meets the name reads the entries off the source
+    (tools/rs2v/emit.py source_table: a changed / dropped / swapped entry changes the translation, a table it cannot
+    read is `unknown name` -> GEN-ERROR), a table translator reads them where the body names the table (gen_svg
+    wf_tables, gen_adapters), and a body only pinned is pinned with the name in it while the table cannot be reached
+    from anywhere else.  A RECORDED table that changes or disappears stays a difference."""
+    import re
+    m = re.fullmatch(r"\+(?:pub \( [^()]* \) )?const ([A-Za-z_][A-Za-z0-9_]*) : (\[ .+ ; \d+ \]) = (\[ .+ \]) ;", line)
+    if not m or any(c in m.group(3) for c in "{}|!") or "{" in m.group(2):
+        return None
+    return m
 
 
 def _is_pub(header):
